@@ -427,9 +427,27 @@ theorem phase_inter (t now life : Nat) (root : Pair) (s : Store) (fr : Nat) (h :
 def RootHeld (t : Nat) (m : Mem) (s : Store) : Prop :=
   InvAt t s ∧ s .rootCrt = some m.root.crt ∧ s .rootKey = some m.root.key
 
-theorem phase_renew (c : Cfg) (m : Mem) (s : Store) (fr : Nat) (h : ProvOK c.now m s) :
+/-- the root a process holds is stored, so (by the invariant) it is self-signed and its key is
+    the stored one -/
+theorem RootHeld.self {t : Nat} {m : Mem} {s : Store} (h : RootHeld t m s) :
+    m.root.signer = m.root.pub ∧ m.root.keyId = m.root.pub := by
+  obtain ⟨hinv, hrc, hrk⟩ := h
+  obtain ⟨r, ra, h1, h2⟩ := hinv.root _ hrc
+  simp only [Pair.crt, Blob.cert.injEq] at h1
+  rw [hrk] at h2
+  simp only [Pair.key, Option.some.injEq, Blob.key.injEq] at h2
+  omega
+
+theorem RootHeld.mono {t t' : Nat} {m : Mem} {s : Store} (h : RootHeld t m s) (ht : t ≤ t') : RootHeld t' m s :=
+  ⟨h.1.mono ht, h.2.1, h.2.2⟩
+
+/-- `renewCertsForCA` — at `Start` or at run time — under ANY fault, provided that whenever the
+    certificate IN MEMORY is due, the certificate IN STORAGE is due as well -/
+theorem phase_renew' (c : Cfg) (m : Mem) (s : Store) (fr : Nat) (h : RootHeld c.now m s)
+    (hduest : m.inter.renewAt ≤ c.now → ∀ i r ra, s .intCrt = some (.cert i r ra) → ra ≤ c.now) :
     wp (InvAt c.now) (fun s' _ => InvAt c.now s') (renew .keyFirst c m) (fun m' s' _ => RootHeld c.now m' s') s fr := by
-  obtain ⟨⟨hinv, hrc, hrk, hsg, hkid⟩, hic, hik, hisg, _⟩ := h
+  obtain ⟨hsg, hkid⟩ := h.self
+  obtain ⟨hinv, hrc, hrk⟩ := h
   unfold renew
   split
   · rename_i hdue
@@ -444,8 +462,7 @@ theorem phase_renew (c : Cfg) (m : Mem) (s : Store) (fr : Nat) (h : ProvOK c.now
     apply wp_genInt .keyFirst c.now c.life _ .genInt s fr hkid.symm
     rw [wp_storePair_keyFirst]
     have hd : m.inter.renewAt ≤ c.now := by simpa [due] using hdue
-    have h1 := hinv.set_intKey fr (fun i r ra hh => by
-      rw [hic, Pair.crt] at hh; cases hh; exact hd)
+    have h1 := hinv.set_intKey fr (hduest hd)
     have hrc' : s .rootCrt = some (.cert m.root.pub m.root.pub m.root.renewAt) := by
       rw [hrc, Pair.crt, hsg]
     have h2 := h1.set_intCrt fr m.root.pub m.root.renewAt (c.now + c.life) (by simp [hrc']) (by simp)
@@ -456,6 +473,12 @@ theorem phase_renew (c : Cfg) (m : Mem) (s : Store) (fr : Nat) (h : ProvOK c.now
       | (simp; exact hrc)
       | (simp; exact hrk)
   · exact ⟨hinv, hrc, hrk⟩
+
+theorem phase_renew (c : Cfg) (m : Mem) (s : Store) (fr : Nat) (h : ProvOK c.now m s) :
+    wp (InvAt c.now) (fun s' _ => InvAt c.now s') (renew .keyFirst c m) (fun m' s' _ => RootHeld c.now m' s') s fr := by
+  obtain ⟨⟨hinv, hrc, hrk, _, _⟩, hic, _, _, _⟩ := h
+  exact phase_renew' c m s fr ⟨hinv, hrc, hrk⟩ (fun hd i r ra hh => by
+    rw [hic, Pair.crt] at hh; cases hh; exact hd)
 
 /-- every exit of a start-up — return, error, death at any storage operation before or after
     its effect — leaves a store that satisfies the invariant again; if it returns, the root it
